@@ -209,6 +209,8 @@ RULES = [
     ("R-C18-publish", 7, "cache path published only by rename after a successful compile", rule_publish),
     ("R-C18-load", 4, "loader opens only the published path", rule_load),
 ]
+from .. import refs as _refs
+RULES = RULES + [_refs.ref_rule('C18')]
 
 
 def run(tier="quick", replay=None):
